@@ -3,6 +3,7 @@ package main
 
 import (
 	"fmt"
+	"go/constant"
 	"go/token"
 	"go/types"
 	"math/big"
@@ -140,6 +141,45 @@ func c14TableKeys(c *Ctx, p *Prog) {
 				}
 			case s.Op == "call" && strings.HasSuffix(strings.Split(s.Name, "@")[0], "IsZero"):
 				zero = &vv
+			case s.Op == "opaque" && isBoolT(s.Type) && strings.Contains(s.Name, "IsZero"):
+				// "is this the first table" asked once per table, before the fields are walked
+				zero = &vv
+			case s.Op == "binop" && len(s.Args) == 2 && ((s.Args[0].Op == "opaque" && isInteger2(s.Args[0].Type) && s.Args[1].isConst() && s.Args[1].Const != nil && s.Args[1].Const.Kind() == constant.Int) || (s.Args[1].Op == "opaque" && isInteger2(s.Args[1].Type) && s.Args[0].isConst() && s.Args[0].Const != nil && s.Args[0].Const.Kind() == constant.Int)):
+				// "is this the first table" asked of the table's index: a comparison with a constant that separates
+				// index 0 from the later ones
+				constLeft := s.Args[0].isConst()
+				kc := s.Args[1]
+				if constLeft {
+					kc = s.Args[0]
+				}
+				kv, _ := constant.Int64Val(kc.Const)
+				at := func(i int64) bool {
+					a, b := i, kv
+					if constLeft {
+						a, b = kv, i
+					}
+					switch s.Tok {
+					case token.GTR:
+						return a > b
+					case token.GEQ:
+						return a >= b
+					case token.LSS:
+						return a < b
+					case token.LEQ:
+						return a <= b
+					case token.EQL:
+						return a == b
+					case token.NEQ:
+						return a != b
+					}
+					return false
+				}
+				if at(0) != at(1) && at(1) == at(3) {
+					t := v == at(0)
+					zero = &t
+				} else {
+					extra = append(extra, k)
+				}
 			case s.Op == "binop" && (s.Tok == token.EQL || s.Tok == token.NEQ) && s.Args[0].Op == "call" && s.Args[1].Op == "call" && strings.Contains(s.Args[0].Name, ".Get") && strings.Contains(s.Args[1].Name, ".Get"):
 				t := (s.Tok == token.NEQ) == v
 				differs = &t
